@@ -224,3 +224,22 @@ def mixed_program(st, small=True):
         if stmts:
             k0["blocks"].insert(0, {"n": "c_ord", "stmts": stmts})
     return prog, g, "K0", kind
+
+
+
+def prefer_sat(st, build, top_of, attempts=6, p_free=0.2, tries=150):
+    """Generation-time bias: most programs should have at least one solution in the shape
+    they are constructed in, otherwise every call of the run fails and nothing but the
+    failure path is exercised.  build(rng) -> tuple whose first item is the program;
+    top_of(tuple) -> name of the class that is randomized.  A fifth of the runs keep the
+    unfiltered generator (unsatisfiable class constraints are part of the input space)."""
+    import random as _random
+    from . import kernel as _k
+    if st.prog.random() < p_free:
+        return build(st.prog)
+    out = None
+    for a in range(attempts):
+        out = build(_random.Random(_k.H(st.seed, "prefer_sat", a)))
+        if refsem.sample_sat(out[0], top_of(out), _random.Random(_k.H(st.seed, "sat_probe", a)), tries):
+            break
+    return out
